@@ -326,6 +326,15 @@ def newValidatorSet (vals : List Validator) : Except Err ValSet :=
   | .error e => .error e
   | .ok vs => if vals.isEmpty then .ok vs else increment vs 1
 
+/-- `cstate.updateState` (kai/state/cstate/execution.go): the NextValidators of the next height are
+a copy of the current ones with the block's change set applied (`UpdateWithChangeSet`, skipped for
+a block without changes) and THEN advanced by one round; an invalid change set leaves the state
+unchanged. -/
+def blockStep (vs : ValSet) (changes : List Validator) : Except Err ValSet :=
+  match updateWithChangeSet vs changes true with
+  | .error e => .error e
+  | .ok vs' => increment vs' 1
+
 /-! ## Specification: Tendermint proposer selection over unbounded integers -/
 namespace Spec
 
